@@ -322,6 +322,11 @@ def run_check(check: Check, tier: str, seed: int, jobs: int, out=print):
             small, small_v, tried = shrink(check, exp, v, ctx)
         except Exception:
             small, small_v, tried = exp, v, 0
+        # the minimised experiment may turn out to be a listed finding (its key can be more specific than the original's)
+        k = _is_known(known, check.id, small_v["key"])
+        if k is not None:
+            known_hits.setdefault(k["key"], [k, 0])[1] += 1
+            continue
         # re-run the minimised experiment to record digests
         outs, vs2, err = _run_exp(check, small, ctx)
         path = write_replay(check, small, small_v, seed, _digests(outs))
